@@ -222,6 +222,9 @@ def layout_jobs(tier, want_valid, want_invalid):
             for site in range(40):
                 for alt in range(9):
                     job(d, ov=[(site, alt)])
+        for k in range(6):                                            # every keyword the grammar admits as identifier, in every identifier position
+            for role in range(30):
+                jobs.append({"id": "L%d" % len(jobs), "doc": 0, "kw": [k, role], "viol": 0, "vsite": 0, "style": dict(BASE_STYLE), "ov": []})
         for _ in range(1500 * scale):                                 # random mixtures: any style, up to two overrides
             job(rng.randrange(0, 2000), style=rstyle(), ov=[(rng.randrange(0, 200), rng.randrange(0, 9)) for _ in range(rng.choice([0, 1, 2]))])
     if want_invalid:
